@@ -2,6 +2,8 @@ import Redproxy.Model.Socks
 import Redproxy.Model.Http
 import Redproxy.Model.Frames
 import Redproxy.Model.Fragment
+import Redproxy.Model.Accept
+import Redproxy.Gen.AcceptSites
 /-! Model side of the codec line protocol (see harness/codec.rs for the formats). -/
 namespace Redproxy.Driver.Codec
 open Redproxy Redproxy.Socks
@@ -78,8 +80,24 @@ def streamAll (n : Nat) (rem : Bytes) (s : SS) (acc : String) : String :=
     | (.err _, _, _) => acc ++ "err"
     | (.panic _, _, _) => "panic"
 
+/-- `ST <stage>`: three clients stalled on one listener instance, then a fresh client per listener instance.  The
+prediction comes from the accept-loop model applied to the loop shapes regenerated from the source. -/
+def stallServed (stage : String) : String :=
+  let waitsOf (file : String) : List (List Accept.Wait) :=
+    (Gen.acceptSites.filter (fun s => s.1 == file)).map (fun s => s.2.2.map (fun a =>
+      match a.2 with | .source => Accept.Wait.source | .peer => .peer | .squeue => .squeue | .local => .localWait))
+  let probes : List (String × String) :=      -- (instance prefix of the stage names, source file)
+    [("http-", "src/listeners/http.rs"), ("https-", "src/listeners/http.rs"), ("socks-", "src/listeners/socks.rs"),
+     ("sockss-", "src/listeners/socks.rs"), ("quic-", "src/listeners/quic.rs"), ("rudp-", "src/listeners/reverse.rs")]
+  let bits := probes.map (fun (pre, file) =>
+    let cs : List Accept.Stalls := if stage.startsWith pre then [true, true, true, false] else [false]
+    let k := cs.length - 1
+    if (waitsOf file).all (fun ws => Accept.served ws cs k) && !(waitsOf file).isEmpty then "1" else "0")
+  "served=" ++ String.join bits
+
 def step (line : String) : String :=
   match line.trimAscii.toString.splitOn " " with
+  | ["ST", stage] => stallServed stage
   | ["SREQ", req, segs] =>
     match parseSegs segs with
     | some segs =>
@@ -137,6 +155,26 @@ def step (line : String) : String :=
       | (.err _, _, w) => s!"err w={hexOrDash w.flushed}"
       | (.panic _, _, _) => "panic"
     | _, _, _ => "bad-op"
+  | ["H11CF", addr, segs, tbl] =>
+    match parseAddr addr, parseSegs segs, parseTbl tbl with
+    | some (some a), some segs, some tbl =>
+      match runSeg (Http.connectExchange tbl a .udpForward (strBytes "inline") (strBytes "1.2.3.4:5") fuel) (mkSS segs) {} with
+      | (.ok _, s, _) => "ok " ++ streamAll 1002 [] s ""     -- the frame reader continues on the same buffered stream
+      | (.err _, _, _) => "err"
+      | (.panic _, _, _) => "panic"
+    | _, _, _ => "bad-op"
+  | ["HHSF", segs, tbl] =>
+    match parseSegs segs, parseTbl tbl with
+    | some segs, some tbl =>
+      match runSeg (Http.readRequest fuel) (mkSS segs) {} with
+      | (.ok r, s, _) =>
+        match Http.interpret tbl r with
+        | .tcp _ => "tcp"
+        | .udp _ true _ => "ok " ++ streamAll 1002 [] s ""
+        | _ => "err"
+      | (.err _, _, _) => "err"
+      | (.panic _, _, _) => "panic"
+    | _, _ => "bad-op"
   | ["HHS", segs, tbl] =>
     match parseSegs segs, parseTbl tbl with
     | some segs, some tbl =>
